@@ -391,10 +391,13 @@ class C05Checker(Checker):
             return
         e0 = tl[i0]
         final_m = tree.metaepoch_count
-        if final_m != e0.metaepoch:
+        # metaepochs performed when the condition was first seen true = loop-head consultations answered "go on" until then
+        # (counted here, not read from the tree's counter: what the counter shows in the middle of a metaepoch is not specified)
+        performed = sum(1 for e in tl[:i0] if e.asker == "head" and not e.verdict)
+        if final_m != performed:
             self.fail(
                 "ran-past-gsc",
-                f"GSC first true at consultation #{i0} in metaepoch {e0.metaepoch} (asked by {e0.asker} {e0.asker_id or ''}) but run() returned with metaepoch_count={final_m}",
+                f"GSC first true at consultation #{i0} during/after metaepoch {performed} (asked by {e0.asker} {e0.asker_id or ''}) but run() returned with metaepoch_count={final_m}",
             )
         heads = [e for e in tl if e.asker == "head"]
         false_heads = sum(1 for e in heads if not e.verdict)
@@ -439,7 +442,8 @@ class C05Checker(Checker):
             # the asker's generations of the running metaepoch enter the history only after its consultation returns
             allowed_gens = 1
             if did == e0.asker_id and e0.asker == "deme":
-                allowed_gens = sum(1 for e in tl[: i0 + 1] if e.asker == "deme" and e.asker_id == did and e.metaepoch == e0.metaepoch)
+                last_head = max((j for j in range(i0) if tl[j].asker == "head"), default=-1)
+                allowed_gens = sum(1 for e in tl[last_head + 1 : i0 + 1] if e.asker == "deme" and e.asker_id == did)
             if dgens > allowed_gens:
                 self.fail(f"wind-down-generations/{name}", f"deme {did} recorded {dgens} generations after the GSC was first true")
             if name != "LocalDeme":
@@ -498,6 +502,7 @@ class C06Checker(Checker):
                     "started_at": d.started_at,
                     "type": type(d).__name__,
                     "deme": d,
+                    "children": [ch.id for ch in d.children],
                 }
         return out
 
@@ -532,6 +537,7 @@ class C06Checker(Checker):
                 # stopping reasons
                 lsc_true = any(l["deme"] == did and l["verdict"] for l in step_lsc)
                 gsc_true = any(e.asker == "deme" and e.asker_id == did and e.verdict for e in step_gsc)
+                gsc_any = any(e.verdict for e in step_gsc)  # "the global stop condition holds": whoever noticed
                 is_local = t == "LocalDeme"
                 cma_stop = False
                 if t == "CMADeme":
@@ -540,19 +546,25 @@ class C06Checker(Checker):
                     except Exception:  # noqa: BLE001
                         cma_stop = False
                 if should_run:
-                    reason = lsc_true or gsc_true or is_local or cma_stop
+                    reason = lsc_true or gsc_true or gsc_any or is_local or cma_stop
                     if p["active"] and not c["active"] and not reason:
                         self.fail(f"stopped-without-reason/{t}", f"metaepoch {tree.metaepoch_count}: deme {did} ({t}) became inactive although neither its LSC nor the GSC held and the engine did not terminate")
                     if c["active"] and (lsc_true or gsc_true or is_local or cma_stop):
                         why = "LSC" if lsc_true else "GSC" if gsc_true else "one-shot local search" if is_local else "CMA-ES stop()"
                         self.fail(f"not-stopped-despite-{'lsc' if lsc_true else 'gsc' if gsc_true else 'local' if is_local else 'cma'}/{t}", f"metaepoch {tree.metaepoch_count}: deme {did} ({t}) stayed active although {why} held at the end of its metaepoch")
                     pure = self.pure_lsc.get(c["level"])
-                    if pure is not None and not gsc_true and not is_local and not cma_stop:
+                    if pure is not None and not gsc_any and not is_local and not cma_stop:
                         kind, cond = pure
                         try:
                             holds = bool(cond(c["deme"]))
                         except Exception:  # noqa: BLE001
                             holds = None
+                        if kind == "AllChildrenStopped" and holds:
+                            # a condition about OTHER demes: "at the end of its metaepoch" is not the boundary when the
+                            # children run after their parent. Certain only if they had all stopped a boundary earlier.
+                            kids = p.get("children") or []
+                            if not (kids and all(k_ in self.prev and not self.prev[k_]["active"] for k_ in kids)):
+                                holds = None
                         if holds is True and c["active"]:
                             self.fail(f"lsc-holds-but-deme-active/{t}/{kind}", f"metaepoch {tree.metaepoch_count}: {kind} holds for deme {did} ({t}) at the end of its metaepoch {c['nhist'] - 1} but the deme is still active")
                         if holds is False and not c["active"] and kind != "AllChildrenStopped":
@@ -561,7 +573,8 @@ class C06Checker(Checker):
                         sib_active = any(o["active"] and o["level"] == c["level"] and oid != did for oid, o in cur.items())
                         if sib_active and c["level"] >= 1:
                             self.lsc_stops_level[c["level"]] = tree.metaepoch_count
-                elif p["active"] != c["active"]:
+                elif p["active"] != c["active"] and not (p["active"] and gsc_any):
+                    # (a tree may close its demes once the global stop condition holds, sleeping ones included)
                     self.fail(f"flag-changed-while-not-running/{t}", f"deme {did} changed its active flag in a metaepoch it did not run")
             for did, c in cur.items():
                 if did in self.prev:
